@@ -484,9 +484,9 @@ func (s *UDPNATRelay) relayServerConnToNatConnGeneric(ctx context.Context, uplin
 			_ = uplink.natConn.SetReadDeadline(conn.ALongTimeAgo)
 		}
 
-		s.putQueuedPacket(queuedPacket)
 		packetsSent++
 		payloadBytesSent += uint64(queuedPacket.length)
+		s.putQueuedPacket(queuedPacket)
 	}
 
 	uplink.logger.Info("Finished relay serverConn -> natConn",
